@@ -493,5 +493,14 @@ def rule_builders_fresh(ctx):
     rb(ctx, 'C05.h')
 
 
+
+def rule_tcp_writer(ctx):
+    """(shared C02.e)  Wire order is queue order also inside the transport: TransportTCP.send_frame writes the frame it is
+    given - prefix, header, metadata, data - to the StreamWriter completely before it returns; a transport that keeps
+    small frames in a buffer of its own lets a later large frame overtake them (rules/c02.py)."""
+    from .c02 import rule_tcp_writer as r
+    r(ctx)
+
+
 RULES = [('C05.a', rule_a), ('C05.b', rule_b), ('C05.c', rule_c), ('C05.e', rule_e), ('C05.f', rule_f),
-         ('C01.c', rule_g), ('C05.g', rule_single_writer), ('C05.h', rule_builders_fresh)]
+         ('C01.c', rule_g), ('C05.g', rule_single_writer), ('C05.h', rule_builders_fresh), ('C02.e', rule_tcp_writer)]
